@@ -52,6 +52,13 @@ class Gen:
         n = rng.choice([0, 1, 2, 3, 31, 32, 33, 127, 128, 254, 255] + (big if mx > 255 else []))
         if n > 1000: self.used_big = True
         n = min(n, mx)
+        if rng.random() < .3:
+            # canonical encodings of integers on and around the byte-width boundaries (these may be written `d<n>`)
+            k = rng.choice([7, 8, 15, 16, 23, 31, 32, 63])
+            z = rng.choice([0, 1, -1, 127, 128, -127, -128, -129, 255, 256, -255, -256, 32767, 32768, -32768, -32769,
+                            (1 << k), -(1 << k), (1 << k) - 1, -(1 << k) - 1, -(1 << k) + 1])
+            b = V.i2b(z)
+            if 0 < len(b) <= mx: return b
         return V.rbytes(rng, n) if n < 2000 else bytes([rng.getrandbits(8)]) * n
 
     def node(self, depth):
